@@ -187,80 +187,7 @@ Proof.
   induction (map (in_box x) l1) as [|b t IH]; [reflexivity|]. cbn [app count_true]. rewrite IH. lia.
 Qed.
 
-Section AdaptiveProofs.
-Variable pct : list Q -> nat -> nat -> Q.
-
-Lemma split_one_boxes : forall idx n bd,
-  map fst (split_one pct idx n bd) = split_box (fst bd) idx (cuts_of pct (column idx (snd bd)) n).
-Proof. intros idx n [bx pts]. unfold split_one, split_box. cbn [fst snd]. rewrite map_map. reflexivity. Qed.
-
-Lemma split_level_count : forall idx n chain x,
-  Forall (node_ok pct idx n) chain ->
-  count_in x (map fst (flat_map (split_one pct idx n) chain)) = count_in x (map fst chain).
-Proof.
-  intros idx n chain x. induction chain as [|bd chain IH]; intro H; [reflexivity|].
-  inversion H as [|? ? [Hidx Hs] Hrest]; subst.
-  cbn [flat_map map]. rewrite map_app, count_in_app, split_one_boxes, (IH Hrest).
-  rewrite (split_box_count _ _ _ x Hidx Hs).
-  change (fst bd :: map fst chain) with ([fst bd] ++ map fst chain). rewrite count_in_app.
-  unfold count_in at 2. cbn. destruct (in_box x (fst bd)); reflexivity.
-Qed.
-
-Lemma multi_split_count : forall ns idx chain x,
-  multi_ok pct idx ns chain ->
-  count_in x (map fst (multi_split_from pct idx ns chain)) = count_in x (map fst chain).
-Proof.
-  induction ns as [|n ns IH]; intros idx chain x H; [reflexivity|].
-  destruct H as [Hlev Hrest]. cbn [multi_split_from].
-  rewrite (IH (S idx) _ x Hrest). apply split_level_count. exact Hlev.
-Qed.
-
-Lemma loop_split_count : forall nss chain x,
-  loop_ok pct nss chain ->
-  count_in x (map fst (loop_split pct nss chain)) = count_in x (map fst chain).
-Proof.
-  induction nss as [|ns nss IH]; intros chain x H; [reflexivity|].
-  destruct H as [Hm Hrest]. cbn [loop_split].
-  rewrite (IH _ x Hrest). apply multi_split_count. exact Hm.
-Qed.
-
-(* multi-dimensional partition for the whole split list: with every percentile cut in order
-   between the bounds of the box it splits, a point of the base box lies in exactly one leaf
-   box and a point outside in none *)
-Theorem adaptive_partition : forall nss base pts x,
-  loop_ok pct nss [(base, pts)] ->
-  count_in x (map fst (loop_split pct nss [(base, pts)])) = if in_box x base then 1%nat else 0%nat.
-Proof.
-  intros nss base pts x H. rewrite (loop_split_count nss _ x H).
-  unfold count_in. cbn. destruct (in_box x base); reflexivity.
-Qed.
-
-Corollary adaptive_exactly_one : forall nss base pts x,
-  loop_ok pct nss [(base, pts)] -> in_box x base = true ->
-  exists! i, (i < length (loop_split pct nss [(base, pts)]))%nat /\
-             in_box x (nth i (map fst (loop_split pct nss [(base, pts)])) []) = true.
-Proof.
-  intros nss base pts x H Hin.
-  pose proof (adaptive_partition nss base pts x H) as Hc. rewrite Hin in Hc.
-  unfold count_in in Hc. destruct (count_one_exists_unique _ Hc) as (i & [Hi Hn] & Hu).
-  rewrite !map_length in Hi.
-  assert (Hnth : forall j, (j < length (loop_split pct nss [(base, pts)]))%nat ->
-            nth j (map (in_box x) (map fst (loop_split pct nss [(base, pts)]))) false
-            = in_box x (nth j (map fst (loop_split pct nss [(base, pts)])) [])).
-  { intros j Hj. rewrite (nth_indep _ false (in_box x [])) by (rewrite !map_length; exact Hj).
-    apply map_nth. }
-  exists i. split.
-  - split; [exact Hi|]. rewrite <- Hnth by exact Hi. exact Hn.
-  - intros j [Hj Hjn]. apply Hu. rewrite !map_length. split; [exact Hj|]. rewrite Hnth by exact Hj. exact Hjn.
-Qed.
-
-(* what the percentile contract gives: cut values in order between the bounds, PROVIDED the
-   data of the box stay 1e-6 away from its upper bound (true for the base box, whose upper
-   bound is max + 1e-6; for a box whose upper bound is an earlier cut of the same dimension
-   it needs the data to keep that distance) *)
-Hypothesis pct_between : forall col j n, col <> [] -> qmin_l col <= pct col j n /\ pct col j n <= qmax_l col.
-Hypothesis pct_mono : forall col j k n, (j <= k)%nat -> pct col j n <= pct col k n.
-
+(* ---- min / max of a column ---- *)
 Lemma qmin_from_le : forall l m, qmin_from m l <= m.
 Proof.
   induction l as [|x t IH]; intros m; cbn [qmin_from]; [lra|].
@@ -294,34 +221,222 @@ Proof.
     apply IH; [exact Hs|]. intros v Hv. apply Hle. right. exact Hv.
 Qed.
 
+Lemma qmax_from_ge : forall l m, m <= qmax_from' m l.
+Proof.
+  induction l as [|x t IH]; intros m; cbn [qmax_from']; [lra|].
+  destruct (Qle_bool m x) eqn:E; [apply Qle_bool_iff in E; specialize (IH x); lra|apply IH].
+Qed.
+Lemma qmin_from_le_in : forall l m v, In v (m :: l) -> qmin_from m l <= v.
+Proof.
+  induction l as [|x t IH]; intros m v Hin; cbn [qmin_from].
+  - destruct Hin as [<-|[]]. lra.
+  - pose proof (qmin_from_le t (if Qle_bool x m then x else m)) as Hq.
+    destruct Hin as [<-|[<-|Hin]].
+    + destruct (Qle_bool x m) eqn:E; [apply Qle_bool_iff in E; lra|lra].
+    + destruct (Qle_bool x m) eqn:E; [lra|].
+      assert (m < x) by (apply Qnot_le_lt; intro C; apply Qle_bool_iff in C; congruence). lra.
+    + apply IH. right. exact Hin.
+Qed.
+Lemma qmax_from_ge_in : forall l m v, In v (m :: l) -> v <= qmax_from' m l.
+Proof.
+  induction l as [|x t IH]; intros m v Hin; cbn [qmax_from'].
+  - destruct Hin as [<-|[]]. lra.
+  - pose proof (qmax_from_ge t (if Qle_bool m x then x else m)) as Hq.
+    destruct Hin as [<-|[<-|Hin]].
+    + destruct (Qle_bool m x) eqn:E; [apply Qle_bool_iff in E; lra|lra].
+    + destruct (Qle_bool m x) eqn:E; [lra|].
+      assert (x < m) by (apply Qnot_le_lt; intro C; apply Qle_bool_iff in C; congruence). lra.
+    + apply IH. right. exact Hin.
+Qed.
+Lemma qmax_from_in : forall l m, In (qmax_from' m l) (m :: l).
+Proof.
+  induction l as [|x t IH]; intros m; cbn [qmax_from']; [left; reflexivity|].
+  destruct (Qle_bool m x).
+  - right. apply IH.
+  - destruct (IH m) as [H|H]; [left; exact H|right; right; exact H].
+Qed.
+Lemma qmax_l_in : forall l, l <> [] -> In (qmax_l l) l.
+Proof. intros [|x t] H; [congruence|]. cbn [qmax_l]. apply qmax_from_in. Qed.
+Lemma qmin_l_le : forall l v, In v l -> qmin_l l <= v.
+Proof. intros [|x t] v H; [destruct H|]. cbn [qmin_l]. apply qmin_from_le_in. exact H. Qed.
+Lemma qmax_l_ge : forall l v, In v l -> v <= qmax_l l.
+Proof. intros [|x t] v H; [destruct H|]. cbn [qmax_l]. apply qmax_from_ge_in. exact H. Qed.
+
+Section AdaptiveProofs.
+Variable pct : list Q -> nat -> nat -> Q.
+Variable up : Q -> Q.
+
+Lemma split_one_boxes : forall idx n bd,
+  map fst (split_one pct up idx n bd) = split_box (fst bd) idx (cuts_of pct up (column idx (snd bd)) n).
+Proof. intros idx n [bx pts]. unfold split_one, split_box. cbn [fst snd]. rewrite map_map. reflexivity. Qed.
+
+Lemma split_level_count : forall idx n chain x,
+  Forall (node_ok pct up idx n) chain ->
+  count_in x (map fst (flat_map (split_one pct up idx n) chain)) = count_in x (map fst chain).
+Proof.
+  intros idx n chain x. induction chain as [|bd chain IH]; intro H; [reflexivity|].
+  inversion H as [|? ? [Hidx Hs] Hrest]; subst.
+  cbn [flat_map map]. rewrite map_app, count_in_app, split_one_boxes, (IH Hrest).
+  rewrite (split_box_count _ _ _ x Hidx Hs).
+  change (fst bd :: map fst chain) with ([fst bd] ++ map fst chain). rewrite count_in_app.
+  unfold count_in at 2. cbn. destruct (in_box x (fst bd)); reflexivity.
+Qed.
+
+Lemma multi_split_count : forall ns idx chain x,
+  multi_ok pct up idx ns chain ->
+  count_in x (map fst (multi_split_from pct up idx ns chain)) = count_in x (map fst chain).
+Proof.
+  induction ns as [|n ns IH]; intros idx chain x H; [reflexivity|].
+  destruct H as [Hlev Hrest]. cbn [multi_split_from].
+  rewrite (IH (S idx) _ x Hrest). apply split_level_count. exact Hlev.
+Qed.
+
+Lemma loop_split_count : forall nss chain x,
+  loop_ok pct up nss chain ->
+  count_in x (map fst (loop_split pct up nss chain)) = count_in x (map fst chain).
+Proof.
+  induction nss as [|ns nss IH]; intros chain x H; [reflexivity|].
+  destruct H as [Hm Hrest]. cbn [loop_split].
+  rewrite (IH _ x Hrest). apply multi_split_count. exact Hm.
+Qed.
+
+(* multi-dimensional partition for the whole split list: with every percentile cut in order
+   between the bounds of the box it splits, a point of the base box lies in exactly one leaf
+   box and a point outside in none *)
+Theorem adaptive_partition : forall nss base pts x,
+  loop_ok pct up nss [(base, pts)] ->
+  count_in x (map fst (loop_split pct up nss [(base, pts)])) = if in_box x base then 1%nat else 0%nat.
+Proof.
+  intros nss base pts x H. rewrite (loop_split_count nss _ x H).
+  unfold count_in. cbn. destruct (in_box x base); reflexivity.
+Qed.
+
+Corollary adaptive_exactly_one : forall nss base pts x,
+  loop_ok pct up nss [(base, pts)] -> in_box x base = true ->
+  exists! i, (i < length (loop_split pct up nss [(base, pts)]))%nat /\
+             in_box x (nth i (map fst (loop_split pct up nss [(base, pts)])) []) = true.
+Proof.
+  intros nss base pts x H Hin.
+  pose proof (adaptive_partition nss base pts x H) as Hc. rewrite Hin in Hc.
+  unfold count_in in Hc. destruct (count_one_exists_unique _ Hc) as (i & [Hi Hn] & Hu).
+  rewrite !map_length in Hi.
+  assert (Hnth : forall j, (j < length (loop_split pct up nss [(base, pts)]))%nat ->
+            nth j (map (in_box x) (map fst (loop_split pct up nss [(base, pts)]))) false
+            = in_box x (nth j (map fst (loop_split pct up nss [(base, pts)])) [])).
+  { intros j Hj. rewrite (nth_indep _ false (in_box x [])) by (rewrite !map_length; exact Hj).
+    apply map_nth. }
+  exists i. split.
+  - split; [exact Hi|]. rewrite <- Hnth by exact Hi. exact Hn.
+  - intros j [Hj Hjn]. apply Hu. rewrite !map_length. split; [exact Hj|]. rewrite Hnth by exact Hj. exact Hjn.
+Qed.
+
+(* what the percentile contract gives: cut values in order between the bounds, PROVIDED the
+   upper neighbour of every datum of the box is at most its upper bound (true for the base box,
+   whose upper bound is up max; for a box whose upper bound is an earlier cut of the same
+   dimension it needs the data to keep that distance) *)
+Hypothesis pct_between : forall col j n, col <> [] -> qmin_l col <= pct col j n /\ pct col j n <= qmax_l col.
+Hypothesis pct_mono : forall col j k n, (j <= k)%nat -> pct col j n <= pct col k n.
+Hypothesis up_mono : forall x y, x <= y -> up x <= up y.
+Hypothesis up_ge : forall x, x <= up x.
+
 Theorem cuts_in_order : forall col n lo hi,
-  col <> [] -> Forall (fun v => lo <= v) col -> Forall (fun v => v + eps6 <= hi) col ->
-  qsorted (lo :: cuts_of pct col n ++ [hi]).
+  col <> [] -> Forall (fun v => lo <= v) col -> Forall (fun v => up v <= hi) col ->
+  qsorted (lo :: cuts_of pct up col n ++ [hi]).
 Proof.
   intros col n lo hi Hne Hlo Hhi.
   assert (Hmin : lo <= qmin_l col).
   { destruct col as [|x t]; [congruence|]. inversion Hlo; subst. cbn [qmin_l]. apply qmin_from_lb; auto. }
-  assert (Hmax : qmax_l col + eps6 <= hi).
-  { destruct col as [|x t]; [congruence|]. inversion Hhi; subst. cbn [qmax_l].
-    assert (qmax_from' x t <= hi - eps6).
-    { apply qmax_from_ub; [lra|]. eapply Forall_impl; [|exact H2]. cbv beta. intros; lra. }
-    lra. }
-  assert (Heps : 0 <= eps6) by (unfold eps6; unfold Qle; cbn; lia).
+  assert (Hmax : up (qmax_l col) <= hi).
+  { rewrite Forall_forall in Hhi. apply Hhi. apply qmax_l_in. exact Hne. }
   assert (Hlh : lo <= hi).
-  { destruct col as [|x t]; [congruence|]. inversion Hlo; subst. inversion Hhi; subst. lra. }
+  { destruct col as [|x t]; [congruence|]. inversion Hlo; subst. rewrite Forall_forall in Hhi.
+    pose proof (Hhi x (or_introl eq_refl)). pose proof (up_ge x). lra. }
   apply qsorted_snoc.
   - unfold cuts_of. remember (seq 1 (n - 1)) as js. destruct js as [|j js']; [cbn; auto|].
     cbn [map]. split.
-    + destruct (pct_between col j n Hne). lra.
-    + rewrite <- (map_cons (fun j0 => pct col j0 n + eps6)). rewrite Heqjs.
-      apply sorted_map_seq. intros a b Hab. pose proof (pct_mono col a b n Hab). lra.
+    + destruct (pct_between col j n Hne). pose proof (up_ge (pct col j n)). lra.
+    + rewrite <- (map_cons (fun j0 => up (pct col j0 n))). rewrite Heqjs.
+      apply sorted_map_seq. intros a b Hab. apply up_mono. apply (pct_mono col a b n Hab).
   - intros v [<-|Hv].
     + lra.
     + unfold cuts_of in Hv. apply in_map_iff in Hv. destruct Hv as (j & <- & _).
-      destruct (pct_between col j n Hne). lra.
+      destruct (pct_between col j n Hne). pose proof (up_mono _ _ H0). lra.
 Qed.
 
 End AdaptiveProofs.
+
+(* the code before the repair (up = up_old): the statement with the absolute 1e-6 pad *)
+Corollary cuts_in_order_old_offset : forall pct : list Q -> nat -> nat -> Q,
+  (forall col j n, col <> [] -> qmin_l col <= pct col j n /\ pct col j n <= qmax_l col) ->
+  (forall col j k n, (j <= k)%nat -> pct col j n <= pct col k n) ->
+  forall col n lo hi,
+  col <> [] -> Forall (fun v => lo <= v) col -> Forall (fun v => v + eps6 <= hi) col ->
+  qsorted (lo :: cuts_of pct up_old col n ++ [hi]).
+Proof.
+  intros pct Hb Hm col n lo hi Hne Hlo Hhi.
+  assert (Heps : 0 <= eps6) by (unfold eps6; unfold Qle; cbn; lia).
+  apply cuts_in_order; auto; unfold up_old; intros; lra.
+Qed.
+
+(* the reference instance of the oracle lies strictly above its argument *)
+Lemma qmake1_pos : forall p, 0 < Qmake 1 p.
+Proof. intro p. unfold Qlt. cbn [Qnum Qden]. lia. Qed.
+Lemma up_ref_above : forall x, x < up_ref x.
+Proof.
+  intro x. unfold up_ref. pose proof (qmake1_pos (2 ^ 1080)%positive) as Ht. fold tiny in Ht.
+  generalize dependent tiny. intros t Ht.
+  pose proof (Qabs_nonneg x) as Ha.
+  assert (Hc : 0 <= Qabs x * (1 # 9007199254740992)).
+  { apply Qmult_le_0_compat; [exact Ha|]. unfold Qle. cbn. lia. }
+  lra.
+Qed.
+Lemma up_old_above : forall x, x < up_old x.
+Proof. intro x. unfold up_old, eps6. lra. Qed.
+
+(* every event of the data set lies in the base box *)
+Lemma skipn_nth_cons : forall (p : list Q) k, (k < length p)%nat -> skipn k p = nth k p 0 :: skipn (S k) p.
+Proof.
+  induction p as [|a p IH]; intros k Hk; [cbn in Hk; lia|].
+  destruct k as [|k]; [reflexivity|]. cbn [skipn nth]. cbn [length] in Hk. rewrite IH by lia. reflexivity.
+Qed.
+
+Lemma base_bound_contains_from : forall up pts p, (forall x, x < up x) -> In p pts ->
+  forall len start, (start + len <= length p)%nat ->
+  in_box (skipn start p)
+    (map (fun d => (qmin_l (map (fun q => nth d q 0) pts) - eps6,
+                    up (qmax_l (map (fun q => nth d q 0) pts)))) (seq start len)) = true.
+Proof.
+  intros up pts p Hup Hin. induction len as [|len IH]; intros start Hl; [cbn [seq map]; destruct (skipn start p); reflexivity|].
+  cbn [seq map]. rewrite skipn_nth_cons by lia. cbn [in_box].
+  rewrite IH by lia. rewrite andb_true_r. apply in_ho_spec.
+  assert (Hc : In (nth start p 0) (map (fun q => nth start q 0) pts)).
+  { apply in_map_iff. exists p. split; [reflexivity|exact Hin]. }
+  pose proof (qmin_l_le _ _ Hc) as H1. pose proof (qmax_l_ge _ _ Hc) as H2.
+  pose proof (Hup (qmax_l (map (fun q => nth start q 0) pts))) as H3.
+  assert (Heps : 0 <= eps6) by (unfold eps6; unfold Qle; cbn; lia).
+  split; lra.
+Qed.
+
+Theorem base_bound_contains : forall up ndim pts p, (forall x, x < up x) -> In p pts ->
+  (ndim <= length p)%nat -> in_box p (base_bound up ndim pts) = true.
+Proof.
+  intros up ndim pts p Hup Hin Hl. unfold base_bound.
+  exact (base_bound_contains_from up pts p Hup Hin ndim 0%nat Hl).
+Qed.
+
+(* the old absolute pad against data finer than 1e-6: all 8 events fall below the first cut *)
+Definition fine_col : list Q := map (fun k => inject_Z (Z.of_nat k) / 10000000) (seq 0 8).
+Definition fine_pts : list point := map (fun v => [v]) fine_col.
+Example old_abs_offset_unequal_populations :
+  map (fun bd => length (snd bd))
+      (split_one qpercentile up_old 0 2 (base_bound up_old 1 fine_pts, fine_pts)) = [8; 0]%nat
+  /\ pop_within_one 8 2 8 = false.
+Proof. split; vm_compute; reflexivity. Qed.
+Example new_offset_equal_populations :
+  map (fun bd => length (snd bd))
+      (split_one qpercentile up_ref 0 2 (base_bound up_ref 1 fine_pts, fine_pts)) = [4; 4]%nat
+  /\ pop_within_one 8 2 4 = true.
+Proof. split; vm_compute; reflexivity. Qed.
 
 (* ---- weighted histograms ---- *)
 Lemma np_flags_below : forall es x, qsorted es -> x < qhd es -> count_true (np_flags x es) = 0%nat.
@@ -448,3 +563,195 @@ Proof.
   pose proof (Z.mod_pos_bound ((j - 1) * (m - 1)) n Hn) as B2.
   nia.
 Qed.
+
+(* ---- sum of two histograms: Hist1D.__add__ / __sub__ (after the repair) ---- *)
+Lemma F2q_refl : forall l, Forall2 Qeq l l.
+Proof. induction l; constructor; [reflexivity|assumption]. Qed.
+Lemma F2q_trans : forall a b c, Forall2 Qeq a b -> Forall2 Qeq b c -> Forall2 Qeq a c.
+Proof.
+  intros a b c H. revert c. induction H; intros c Hc; inversion Hc; subst; constructor.
+  - etransitivity; eassumption.
+  - apply IHForall2. assumption.
+Qed.
+Lemma F2q_nth : forall a b i, Forall2 Qeq a b -> nth i a 0 == nth i b 0.
+Proof.
+  intros a b i H. revert i. induction H; intros [|i]; cbn [nth]; try reflexivity; auto.
+Qed.
+Lemma vadd_assoc : forall r x y, Forall2 Qeq (vadd r (vadd x y)) (vadd (vadd r x) y).
+Proof.
+  induction r as [|a r IH]; intros [|b x] [|c y]; cbn [vadd]; try constructor.
+  - lra.
+  - apply IH.
+Qed.
+Lemma vadd_cong_r : forall r x x', Forall2 Qeq x x' -> Forall2 Qeq (vadd r x) (vadd r x').
+Proof.
+  induction r as [|a r IH]; intros x x' H; [constructor|].
+  inversion H; subst; cbn [vadd]; constructor; [lra|apply IH; assumption].
+Qed.
+Lemma vadd_zeros_l : forall l, Forall2 Qeq l (vadd (zeros (length l)) l).
+Proof.
+  induction l as [|x l IH]; [constructor|]. cbn [length zeros repeat vadd]. constructor; [lra|exact IH].
+Qed.
+
+(* (i) the histogram of the union of two event sets is the sum of the histograms *)
+Theorem hist_app : forall es a b, Forall2 Qeq (hist es (a ++ b)) (vadd (hist es a) (hist es b)).
+Proof.
+  intros es a b. induction a as [|e a IH]; cbn [app hist].
+  - rewrite <- (hist_length es b). apply vadd_zeros_l.
+  - eapply F2q_trans; [apply vadd_cong_r; exact IH|]. apply vadd_assoc.
+Qed.
+Lemma sq_w_app : forall a b, sq_w (a ++ b) = sq_w a ++ sq_w b.
+Proof. intros. unfold sq_w. apply map_app. Qed.
+Lemma unit_w_app : forall a b, unit_w (a ++ b) = unit_w a ++ unit_w b.
+Proof. intros. unfold unit_w. apply map_app. Qed.
+
+Theorem hist_add_counts : forall es a b,
+  Forall2 Qeq (hist es (a ++ b)) (vadd (hist es a) (hist es b)) /\
+  Forall2 Qeq (hist es (sq_w (a ++ b))) (vadd (hist es (sq_w a)) (hist es (sq_w b))) /\
+  Forall2 Qeq (hist es (unit_w (a ++ b))) (vadd (hist es (unit_w a)) (hist es (unit_w b))).
+Proof.
+  intros es a b. rewrite sq_w_app, unit_w_app. repeat split; apply hist_app.
+Qed.
+
+(* unit-weight counts are non-negative, and where they vanish every weighted sum vanishes *)
+Definition cnt_rel (u s : Q) : Prop := 0 <= u /\ (u == 0 -> s == 0).
+Lemma cnt_rel_row : forall flags w U S, Forall2 cnt_rel U S ->
+  Forall2 cnt_rel (vadd (hist_row flags 1) U) (vadd (hist_row flags w) S).
+Proof.
+  induction flags as [|f t IH]; intros w U S H; [constructor|].
+  inversion H as [|u s U' S' [Hu Hz] Hrest]; subst; unfold hist_row; cbn [map vadd]; constructor.
+  - destruct f; unfold cnt_rel; split; intros; try lra; try (rewrite Hz; lra).
+  - apply IH. exact Hrest.
+Qed.
+Lemma cnt_rel_zeros : forall n, Forall2 cnt_rel (zeros n) (zeros n).
+Proof. induction n; cbn; constructor; [unfold cnt_rel; split; intros; lra|exact IHn]. Qed.
+Lemma hist_unit_rel : forall es evs (g : Q * Q -> Q),
+  Forall2 cnt_rel (hist es (unit_w evs)) (hist es (map (fun e => (fst e, g e)) evs)).
+Proof.
+  intros es evs g. induction evs as [|e evs IH]; cbn [unit_w map hist fst snd].
+  - apply cnt_rel_zeros.
+  - apply cnt_rel_row. exact IH.
+Qed.
+Lemma cnt_rel_nonneg : forall U S, Forall2 cnt_rel U S -> Forall (fun c => 0 <= c) U.
+Proof. intros U S H. induction H as [|u s U S [Hu _] _ IH]; constructor; assumption. Qed.
+Lemma cnt_rel_zero_nth : forall U S, Forall2 cnt_rel U S -> forall i, nth i U 0 == 0 -> nth i S 0 == 0.
+Proof.
+  intros U S H. induction H as [|u s U S [_ Hz] _ IH]; intros [|i]; cbn [nth]; auto; intros; reflexivity.
+Qed.
+Lemma hist_unit_nonneg : forall es evs, Forall (fun c => 0 <= c) (hist es (unit_w evs)).
+Proof. intros es evs. exact (cnt_rel_nonneg _ _ (hist_unit_rel es evs (fun _ => 0))). Qed.
+Lemma hist_unit_zero_sq : forall es evs i,
+  nth i (hist es (unit_w evs)) 0 == 0 -> nth i (hist es (sq_w evs)) 0 == 0.
+Proof.
+  intros es evs i. exact (cnt_rel_zero_nth _ _ (hist_unit_rel es evs (fun e => snd e * snd e)) i).
+Qed.
+
+Lemma qeqb0_add : forall x y, 0 <= x -> 0 <= y -> Qeq_bool (x + y) 0 = Qeq_bool x 0 && Qeq_bool y 0.
+Proof.
+  intros x y Hx Hy. destruct (Qeq_bool x 0) eqn:Ex; destruct (Qeq_bool y 0) eqn:Ey; cbn [andb].
+  - apply Qeq_bool_iff in Ex, Ey. apply Qeq_bool_iff. lra.
+  - destruct (Qeq_bool (x + y) 0) eqn:E; auto. apply Qeq_bool_iff in E. apply Qeq_bool_iff in Ex.
+    apply Qeq_bool_neq in Ey. exfalso. apply Ey. lra.
+  - destruct (Qeq_bool (x + y) 0) eqn:E; auto. apply Qeq_bool_iff in E.
+    apply Qeq_bool_neq in Ex. exfalso. apply Ex. lra.
+  - destruct (Qeq_bool (x + y) 0) eqn:E; auto. apply Qeq_bool_iff in E.
+    apply Qeq_bool_neq in Ex. exfalso. apply Ex. lra.
+Qed.
+Lemma qeqb0_cong : forall x y, x == y -> Qeq_bool x 0 = Qeq_bool y 0.
+Proof.
+  intros x y H. destruct (Qeq_bool x 0) eqn:Ex; destruct (Qeq_bool y 0) eqn:Ey; auto.
+  - apply Qeq_bool_iff in Ex. apply Qeq_bool_neq in Ey. exfalso. apply Ey. lra.
+  - apply Qeq_bool_iff in Ey. apply Qeq_bool_neq in Ex. exfalso. apply Ex. lra.
+Qed.
+Lemma empty_flags_cong : forall X Y, Forall2 Qeq X Y ->
+  map (fun c => Qeq_bool c 0) X = map (fun c => Qeq_bool c 0) Y.
+Proof. intros X Y H. induction H; cbn [map]; [reflexivity|]. f_equal; [apply qeqb0_cong; assumption|assumption]. Qed.
+Lemma empty_flags_vadd : forall A B, Forall (fun c => 0 <= c) A -> Forall (fun c => 0 <= c) B ->
+  map (fun c => Qeq_bool c 0) (vadd A B)
+  = bzip andb (map (fun c => Qeq_bool c 0) A) (map (fun c => Qeq_bool c 0) B).
+Proof.
+  induction A as [|x A IH]; intros [|y B] HA HB; cbn [vadd map bzip]; try reflexivity.
+  inversion HA; inversion HB; subst. f_equal; [apply qeqb0_add; assumption|apply IH; assumption].
+Qed.
+
+(* (ii) a bin of the union is empty exactly where both components are empty *)
+Theorem hist_add_empty_union : forall es a b,
+  hist_empty es (a ++ b) = hist_add_empty (hist_empty es a) (hist_empty es b).
+Proof.
+  intros es a b. unfold hist_empty, hist_add_empty. rewrite unit_w_app.
+  rewrite (empty_flags_cong _ _ (hist_app es (unit_w a) (unit_w b))).
+  apply empty_flags_vadd; apply hist_unit_nonneg.
+Qed.
+
+Lemma vadd_nth : forall A B i, length A = length B -> nth i (vadd A B) 0 == nth i A 0 + nth i B 0.
+Proof.
+  induction A as [|x A IH]; intros [|y B] i H; cbn in H; try lia.
+  - destruct i; cbn; lra.
+  - destruct i as [|i]; cbn [vadd nth]; [lra|]. apply IH. lia.
+Qed.
+Lemma hist_add_err2_nth : forall e1 e2 f1 f2 i,
+  (i < length e1)%nat -> length e2 = length e1 -> length f1 = length e1 -> length f2 = length e1 ->
+  nth i (hist_add_err2 e1 e2 f1 f2) 0 = add_err2 (nth i e1 0) (nth i e2 0) (nth i f1 true) (nth i f2 true).
+Proof.
+  induction e1 as [|x e1 IH]; intros [|y e2] [|a f1] [|b f2] i Hi H2 H3 H4; cbn [length] in *; try lia.
+  destruct i as [|i]; cbn [hist_add_err2 nth]; [reflexivity|]. apply IH; lia.
+Qed.
+Lemma hist_err2_nth : forall m es evs i, (i < length es - 1)%nat ->
+  nth i (hist_err2 m es evs) 0
+  = if Qeq_bool (nth i (hist es (unit_w evs)) 0) 0 then m else nth i (hist es (sq_w evs)) 0.
+Proof.
+  intros mask es evs i Hi. unfold hist_err2.
+  set (f := fun cn : Q * Q => if Qeq_bool (snd cn) 0 then mask else fst cn).
+  assert (Hl1 : length (hist es (sq_w evs)) = (length es - 1)%nat) by apply hist_length.
+  assert (Hl2 : length (hist es (unit_w evs)) = (length es - 1)%nat) by apply hist_length.
+  rewrite (nth_indep _ 0 (f (0, 0))) by (rewrite map_length, combine_length, Hl1, Hl2; lia).
+  rewrite map_nth, combine_nth by lia. reflexivity.
+Qed.
+Lemma hist_err2_length : forall m es evs, length (hist_err2 m es evs) = (length es - 1)%nat.
+Proof. intros. unfold hist_err2. rewrite map_length, combine_length, !hist_length. lia. Qed.
+Lemma hist_empty_length : forall es evs, length (hist_empty es evs) = (length es - 1)%nat.
+Proof. intros. unfold hist_empty. rewrite map_length. apply hist_length. Qed.
+Lemma hist_empty_nth : forall es evs i, (i < length es - 1)%nat ->
+  nth i (hist_empty es evs) true = Qeq_bool (nth i (hist es (unit_w evs)) 0) 0.
+Proof.
+  intros es evs i Hi. unfold hist_empty.
+  rewrite (nth_indep _ true (Qeq_bool 0 0)) by (rewrite map_length, hist_length; exact Hi).
+  apply (map_nth (fun c => Qeq_bool c 0)).
+Qed.
+
+(* (iii) the repaired error rule applied to the two component histograms gives the squared
+   error of the histogram of the union, on every bin (whatever value m masks the empty bins) *)
+Theorem hist_add_union_all : forall m es a b i, (i < length es - 1)%nat ->
+  nth i (hist_add_err2 (hist_err2 m es a) (hist_err2 m es b) (hist_empty es a) (hist_empty es b)) 0
+  == nth i (hist es (sq_w (a ++ b))) 0.
+Proof.
+  intros m es a b i Hi.
+  rewrite hist_add_err2_nth
+    by (rewrite ?hist_err2_length, ?hist_empty_length; auto).
+  rewrite !hist_err2_nth, !hist_empty_nth by exact Hi.
+  rewrite sq_w_app, (F2q_nth _ _ i (hist_app es (sq_w a) (sq_w b))).
+  rewrite vadd_nth by (rewrite !hist_length; reflexivity).
+  unfold add_err2.
+  pose proof (hist_unit_zero_sq es a i) as Ha. pose proof (hist_unit_zero_sq es b i) as Hb.
+  destruct (Qeq_bool (nth i (hist es (unit_w a)) 0) 0) eqn:Ea;
+    destruct (Qeq_bool (nth i (hist es (unit_w b)) 0) 0) eqn:Eb;
+    try (apply Qeq_bool_iff in Ea; specialize (Ha Ea));
+    try (apply Qeq_bool_iff in Eb; specialize (Hb Eb)); lra.
+Qed.
+Theorem hist_add_union : forall m es a b i,
+  nth i (hist_empty es (a ++ b)) true = false ->
+  nth i (hist_add_err2 (hist_err2 m es a) (hist_err2 m es b) (hist_empty es a) (hist_empty es b)) 0
+  == nth i (hist es (sq_w (a ++ b))) 0.
+Proof.
+  intros m es a b i H. apply hist_add_union_all.
+  destruct (Nat.lt_ge_cases i (length es - 1)) as [Hlt|Hge]; [exact Hlt|].
+  rewrite nth_overflow in H by (rewrite hist_empty_length; exact Hge). discriminate.
+Qed.
+
+(* (iv) the rule before the repair (inf + anything = inf: empty where EITHER is empty) *)
+Example old_hist_add_inf_refuted :
+  let es := [0; 1 # 2; 1] in let a := [(1 # 10, 1)] in let b := [(8 # 10, 1)] in
+  hist_add_empty_old (hist_empty es a) (hist_empty es b) = [true; true] /\
+  hist_empty es (a ++ b) = [false; false] /\
+  hist_add_empty (hist_empty es a) (hist_empty es b) = [false; false].
+Proof. repeat split; vm_compute; reflexivity. Qed.
